@@ -444,3 +444,85 @@ func lockWaitClass(sim *simrt.Sim) string {
 	sort.Strings(out)
 	return strings.Join(out, ",")
 }
+
+// ---------------------------------------------------------------- C12: one event, several pipelines, one of them gated
+
+// formatReader is a sink that looks at the rendering its formatter left in the event, a few times.
+type formatReader struct{ reads int }
+
+func (k *formatReader) Type() el.NodeType { return el.NodeTypeSink }
+func (k *formatReader) Reopen() error     { return nil }
+func (k *formatReader) Process(ctx context.Context, e *el.Event) (*el.Event, error) {
+	for i := 0; i < 3; i++ {
+		e.Format(el.JSONFormat)
+		k.reads++
+	}
+	return nil, nil
+}
+
+func init() {
+	register(&Scenario{Prop: "C12", Name: "gated-beside-raw", Run: runGatedBesideRaw})
+}
+
+// runGatedBesideRaw: the event a Send creates is shared by all pipelines of its type, which run side by
+// side. One pipeline renders and reads it (taking the event's own lock), another one holds the gated
+// filter, which composes a new event when a flush event arrives and hands it to ITS formatter and sink;
+// expired groups leave through the same Broker. Tasks are also switched INSIDE critical sections here
+// (Sim.YieldHoldingLock), so that whatever one pipeline does to the shared event meets the other
+// pipeline half-way. Every Send has to return.
+func runGatedBesideRaw(rc *RunCtx) {
+	tp := rc.Tape
+	sim := rc.Sim
+	sim.YieldHoldingLock = true
+	simrt.Probe("reentry.gated-beside-raw")
+	b, _ := el.NewBroker()
+	now := time.Date(2026, 5, 1, 0, 0, 0, 0, time.UTC)
+	gf := &gated.Filter{Broker: b, Expiration: 10 * time.Millisecond, NowFunc: func() time.Time { return now }}
+	ra, rb, rcmp := &formatReader{}, &formatReader{}, &formatReader{}
+	b.RegisterNode("gate", gf)
+	b.RegisterNode("json", &el.JSONFormatter{})
+	b.RegisterNode("json2", &el.JSONFormatter{})
+	b.RegisterNode("ka", ra)
+	b.RegisterNode("kb", rb)
+	b.RegisterNode("kc", rcmp)
+	nRaw := 1 + tp.Choose(2, "raw-pipelines")
+	for i := 0; i < nRaw; i++ {
+		b.RegisterPipeline(el.Pipeline{PipelineID: el.PipelineID(fmt.Sprintf("raw%d", i)), EventType: "t", NodeIDs: []el.NodeID{"json", "ka"}})
+	}
+	sharedFmt := tp.Choose(2, "shared-formatter") == 0
+	f2 := el.NodeID("json2")
+	if sharedFmt {
+		f2 = "json"
+	}
+	b.RegisterPipeline(el.Pipeline{PipelineID: "gated", EventType: "t", NodeIDs: []el.NodeID{"gate", f2, "kb"}})
+	b.RegisterPipeline(el.Pipeline{PipelineID: "composites", EventType: "composite", NodeIDs: []el.NodeID{"json", "kc"}})
+	nSenders := 1 + tp.Choose(2, "nsenders")
+	total, returned := 0, 0
+	var hist []string
+	for s := 0; s < nSenders; s++ {
+		n := 1 + tp.Choose(5, "nsends")
+		var evs []*lightPayload
+		for i := 0; i < n; i++ {
+			total++
+			evs = append(evs, &lightPayload{ID: []string{"a", "b"}[tp.Choose(2, "id")], Flush: tp.Choose(2, "flush") == 0, N: total})
+			hist = append(hist, fmt.Sprintf("sender%d: event(%s,flush=%v)", s, evs[i].ID, evs[i].Flush))
+		}
+		sim.Spawn(fmt.Sprintf("sender%d", s), func() {
+			for _, p := range evs {
+				simrt.Yield("sender:step")
+				b.Send(context.Background(), "t", p)
+				returned++
+				now = now.Add(4 * time.Millisecond)
+			}
+		})
+	}
+	rc.Desc = map[string]interface{}{"raw_pipelines": nRaw, "gated_pipeline_shares_the_formatter": sharedFmt, "history": hist}
+	sim.Run(nil)
+	rc.NonTrivial = true
+	if len(sim.Panics) > 0 {
+		return // (reported by the framework, with the reason)
+	}
+	if sim.Stuck || returned != total {
+		rc.Failf("C12.stuck", stuckClass(sim), "%d of %d Sends returned although every node returned:\n  %s\n%s", returned, total, strings.Join(sim.StuckInfo, "\n  "), sim.Deadlock)
+	}
+}
